@@ -490,11 +490,9 @@ Definition argmin (l : list nat) : nat :=
 
 (* Vec::swap_remove(i) : the remaining elements, last one moved into position i *)
 Definition swap_remove_rest {A} (i : nat) (l : list A) : list A :=
-  match rev l with
-  | [] => []
-  | last :: _ =>
-      if Nat.eqb i (length l - 1) then removelast l
-      else firstn i (removelast l) ++ last :: skipn (S i) (removelast l)
+  match rev (skipn (S i) l) with
+  | [] => firstn i l
+  | last :: rtl => firstn i l ++ last :: rev rtl
   end.
 
 (* range_keys (btree.rs:2076-2184) over the ordered key set [bt] *)
@@ -588,6 +586,10 @@ Section Walk.
           end
     end.
 End Walk.
+Arguments walk_asc {A R} f ps ks a.
+Arguments walk_desc_groups {A R} f ps rks a.
+Arguments walk {A R} f desc ps ks a.
+Arguments range_query {A R} f s desc q a.
 
 (* query_with: the posting of a key *)
 Definition query (s : state) (k : key) : option (list pk) :=
@@ -633,10 +635,14 @@ Record flush_out := mkFlush {
 
 (* flush_owned_with (btree.rs:2312-2427) followed by the production adapter's best-effort deletes
    (rs/anda_db/src/index/btree.rs:989-1003) *)
+(* the forced version bump that precedes serialization (survives a failed flush) *)
+Definition pre_flush (s : state) : state :=
+  if has_dirty s && negb (has_pending s) then bump_version s else s.
+
 Definition flush (s : state) : option flush_out :=
   if negb (has_dirty s) && negb (has_pending s) then None
   else
-    let s := if has_dirty s && negb (has_pending s) then bump_version s else s in
+    let s := pre_flush s in
     let generation := version s in
     let dirty := dirty_ids s in
     let committed := manifest s in
